@@ -6,6 +6,7 @@ import (
 	"go/types"
 	"os"
 	"path/filepath"
+	"regexp"
 	"runtime"
 	"sort"
 	"strings"
@@ -227,6 +228,9 @@ func (p *Program) newInterp(x *Exec) *interpreter {
 	return i
 }
 
+// addrRe: heap addresses in printed panic values differ from run to run
+var addrRe = regexp.MustCompile(`0x[0-9a-f]{6,}`)
+
 type runResult struct {
 	x       *Exec
 	aborted string
@@ -256,7 +260,7 @@ func (p *Program) runOnce(w *Worker, fn *ssa.Function, prefix []decision, opts O
 				}
 			case targetPanic:
 				if !x.expectPanic(toString(r.v)) {
-					x.Viol = append(x.Viol, Violation{Kind: "panic", Msg: clip(toString(r.v), 200), Model: x.model(), Path: append([]decision{}, x.taken...)})
+					x.Viol = append(x.Viol, Violation{Kind: "panic", Msg: clip(addrRe.ReplaceAllString(toString(r.v), "0x.."), 200), Model: x.model(), Path: append([]decision{}, x.taken...)})
 				}
 			case unsupported:
 				res.engine = r.Error()
